@@ -130,6 +130,7 @@ structure Ctx where
   canceled : Bool := false
   proxyFunc : Option Nat := none            -- the one retained MakeFunc value
   retained : List Nat := []                 -- (repaired code) every callback / MakeFunc value
+  restored : Bool := false                  -- the variable was put back and no mock applied since (make_interface.go:73)
 deriving Inhabited
 
 /-- `DefaultInterfaceMocker` (one per method) with its `baseMocker` -/
@@ -249,7 +250,9 @@ def proxyInterface (cfg : Cfg) (s : St) (v t c : Nat) (m : String) (k : Nat) (cb
       -- :49 GenCallableMethod: a fresh stub whose immediate is callback k; make_interface.go:127 keeps the MakeFunc value
       proxyFunc := (match cb with | .mk _ => some k | .clo => cx0.proxyFunc),
       -- (repair of F9) every callback / MakeFunc value is retained
-      retained := if cfg.retainAll then k :: cx0.retained else cx0.retained }
+      retained := if cfg.retainAll then k :: cx0.retained else cx0.retained,
+      -- make_interface.go:108 BackUpTo re-arms the restore: the mock is about to be written into the variable (again)
+      restored := false }
   let s := { s with cbs := upd s.cbs k cb }
   match lookup t cx0.cache, cx0.canceled with
   | some f, false =>                                                            -- :52
@@ -317,11 +320,13 @@ def mockHStep (cfg : Cfg) (s : St) (b v : Nat) (m : String) (kind : Kind) (csig 
     let (j, s) := interfaceOf cfg s b v
     mockOn cfg { s with kept := insertKV (b, v) j s.kept } j m kind (sigFits s (s.cms j).typ m csig) k
 
-/-- make_interface.go:22 `IContext.Cancel`; `none` if there is no backup (a nil dereference in the Go code; unreachable
-    because a guard exists only after `BackUpTo`) -/
+/-- make_interface.go:22 `IContext.Cancel`: restores once per mocking round (a cancelled mocker stays in `Builder.mockers`;
+    another `Reset` must not write the old backup over a value assigned since); `none` if a restore is due but there is no
+    backup (a nil dereference in the Go code; unreachable because a guard exists only after `BackUpTo`) -/
 def cancelCtx (s : St) (c : Nat) : Option St :=
+  if (s.ctxs c).restored then some { s with ctxs := upd s.ctxs c { s.ctxs c with canceled := true } } else
   match (s.ctxs c).backup with
-  | some (v, w) => some { s with vars := upd s.vars v w, ctxs := upd s.ctxs c { s.ctxs c with canceled := true } }
+  | some (v, w) => some { s with vars := upd s.vars v w, ctxs := upd s.ctxs c { s.ctxs c with canceled := true, restored := true } }
   | none => none
 
 /-- mocker.go:156 `baseMocker.Cancel` -/
